@@ -46,7 +46,8 @@
 From Coq Require Import ZArith List Bool.
 From Coq Require Import Lia.
 From Coq Require Import Sorting.Sorted.
-From Flap Require Import Model.Num Model.NumF Model.NumZ Model.TripHistory Model.Promises Model.Predictor Model.Engine Model.Bot Proofs.BotPlanP Proofs.BotDayP
+From Coq Require Import Floats.
+From Flap Require Import Model.Num Model.NumF Model.NumZ Model.TripHistory Model.Promises Model.Predictor Model.Engine Model.Bot Proofs.BotPlanP Proofs.BotDayP Proofs.BotBookP
   Proofs.PromisesP Proofs.PromisesFrameP Proofs.ClearedP Proofs.EngineInv Proofs.UpdateAllP Proofs.ProtocolP Proofs.TrialP
   Proofs.TableP Proofs.ItineraryP Proofs.HistoryP Proofs.HistoryEngineP Proofs.BotShapeP.
 Import ListNotations.
@@ -343,3 +344,36 @@ Proof.
            (C20_new_bot_satisfies_the_invariant NumZ 3 ltac:(lia) exb_dist (th_params ex_params) 18000 (ex_day 18000) ltac:(lia)) Hd).
 Qed.
 
+
+(** the first hypothesis of [C20_planner_offers_exactly_the_free_days] holds for every consistent book *)
+Theorem C20_consistent_books_list_their_promises_in_order : forall (N : NumOps) mx (b : book N),
+  Inv mx b -> StronglySorted (@ts_le N) (promises_oldest_first b).
+Proof. exact @inv_promises_sorted. Qed.
+Print Assumptions C20_consistent_books_list_their_promises_in_order.
+
+(** the hypothesis on route distances holds for float64 distances as the airports table gives them (same
+    distance both ways): checked here on the shortest and on a long real route *)
+Example C20_route_distances_float64 :
+  route_ok (N:=NumF) (fun _ _ => 137.75%float) 1 2 /\ route_ok (N:=NumF) (fun _ _ => 15342.125%float) 1 2 /\
+  route_ok (N:=NumF) (fun a b => if (a <? b)%Z then 0x1.999999999999ap-4%float else 0x1.3333333333334p-2%float) 1 2.
+Proof. unfold route_ok. repeat split; vm_compute; reflexivity. Qed.
+
+(** the hypothesis [length + 1 <= TripLength] cannot be weakened to [length <= TripLength]: known finding F19.
+    Maximum Trip Duration 3, trips of 3 days, everything else as the theorem asks; when the outbound of the
+    first trip leaves in second 0 of its day ([c_r] = 0, a draw the code can make) the update after the
+    return day closes the trip by the trip-length rule, the promise is not kept and the check-in for the
+    second promised trip is refused; leaving one second later every check-in is accepted.  The same
+    history is replayed on the real planner code on every run (harness, probeMidnightMaxLength). *)
+Definition f19_params : params NumZ := @mkParams NumZ 3 50 1 1000 1 1 10 100 3 1 1 1 0 1.
+Definition f19_day (plan : option (plan_choice NumZ)) : day_input NumZ :=
+  @mkDay NumZ f19_params 1 (@empty_pc NumZ) true ex_pred plan 7200 3600.
+Definition f19_history (r : Z) : list (@ev NumZ) :=
+  bot_run (N:=NumZ) 3 exb_dist 18000 (mkBot (new_traveller (ex_day 18000)) [])
+    (f19_day (Some (@mkChoice NumZ 3 18001 1 2 2000 r 3600)) ::
+     f19_day (Some (@mkChoice NumZ 3 18007 1 2 2000 5000 3600)) :: repeat (f19_day None) 8).
+
+Theorem C20_trip_of_maximum_length_leaving_at_midnight_refuted :
+  all_acceptedb 3 (@new_traveller NumZ (ex_day 18000)) (f19_history 0) = false /\
+  all_acceptedb 3 (@new_traveller NumZ (ex_day 18000)) (f19_history 1) = true.
+Proof. split; vm_compute; reflexivity. Qed.
+Print Assumptions C20_trip_of_maximum_length_leaving_at_midnight_refuted.
